@@ -4,7 +4,7 @@
     translator regenerated from /repo (Gen/WireSchema.v). *)
 From Coq Require Import List NArith ZArith Bool String.
 From Verif Require Import Lib.Bytes Sni.Wire Sni.WireProofs Sni.WireGen Sni.WireFrozen Gen.WireSchema
-  Sni.WireChunks Sni.WireChunksProofs Sni.WireReader.
+  Sni.WireChunks Sni.WireChunksProofs Sni.WireReader Sni.WireOwn Sni.WireOwnProofs.
 Import ListNotations.
 Local Open Scope N_scope.
 
@@ -264,3 +264,36 @@ Example C13_nonvacuous_reader :
   end_count N 10 1 1024 r = 3%nat /\
   fst (read_full N 10 5 r) = [1; 2; 3] /\ chunks N (snd (read_full N 10 5 r)) = [].
 Proof. vm_compute. repeat split; reflexivity. Qed.
+
+(** * Round 3 (seeded change C13-g): a decoded request owns its bytes *)
+
+(** The server entry hands no buffer to a request object before decoding it
+    (read off [startCall] / [newRequestMessage] by the translator). *)
+Theorem C13_request_buffers_fresh : gen_write_buf = BufFresh /\ gen_request_buffer_presets = [].
+Proof. exact gen_write_buf_fresh. Qed.
+Print Assumptions C13_request_buffers_fresh.
+
+(** Hence what the holder of a decoded request sees does not depend on the
+    frames decoded afterwards on the same endpoint - ANY later frames:
+    well-formed, truncated, hostile. *)
+Theorem C13_held_requests_independent : forall frames later,
+  firstn (List.length frames) (held_view gen_alloc_max gen_table gen_write_buf (frames ++ later))
+  = held_view gen_alloc_max gen_table gen_write_buf frames.
+Proof. destruct gen_write_buf_fresh as [-> _]. exact (held_fresh_independent gen_alloc_max gen_table). Qed.
+Print Assumptions C13_held_requests_independent.
+
+Theorem C13_held_request_is_its_decode : forall frames i,
+  nth_error (held_view gen_alloc_max gen_table gen_write_buf frames) i =
+  option_map (decode1 gen_alloc_max gen_table) (nth_error frames i).
+Proof. destruct gen_write_buf_fresh as [-> _]. exact (held_fresh_is_decode gen_alloc_max gen_table). Qed.
+Print Assumptions C13_held_request_is_its_decode.
+
+(** A payload buffer shared by the write requests of an endpoint: the
+    holder of the first request reads bytes of the second. *)
+Theorem C13_shared_write_buffer_refuted :
+  held_view 65536 ex_tbl (BufShared 65536) [ex_write 0 1 [65; 65; 65; 65]; ex_write 1 2 [66; 66]]
+  = [CReq 0 3 "writeRequest" [VU64 1; VBytes [66; 66; 65; 65]]; CReq 1 3 "writeRequest" [VU64 2; VBytes [66; 66]]] /\
+  held_view 65536 ex_tbl BufFresh [ex_write 0 1 [65; 65; 65; 65]; ex_write 1 2 [66; 66]]
+  = [CReq 0 3 "writeRequest" [VU64 1; VBytes [65; 65; 65; 65]]; CReq 1 3 "writeRequest" [VU64 2; VBytes [66; 66]]].
+Proof. exact shared_write_buffer_refuted. Qed.
+Print Assumptions C13_shared_write_buffer_refuted.
